@@ -21,8 +21,9 @@ OutJson(o) == IF o.ok THEN [ok |-> o.f] ELSE [err |-> TRUE]
 RECURSIVE MapOut(_)
 MapOut(sq) == IF sq = <<>> THEN <<>> ELSE <<OutJson(Head(sq))>> \o MapOut(Tail(sq))
 
+\* partial: a request is half written (the peer does not take octets)
 Proj(s) == [out |-> s.out, done |-> [r \in Reqs |-> MapOut(s.done[r])],
-            closed |-> s.closed]
+            closed |-> s.closed, partial |-> s.reqmsg # <<>>]
 
 OpJson(o) ==
   CASE o.op = "submit" -> [op |-> "submit", r |-> o.r, q |-> o.q]
@@ -66,6 +67,6 @@ DoneClass == [r \in Reqs |-> IF done[r] = <<>> THEN "none"
 
 \* the path, the deviant twin, what was written and which message exactly
 \* was delivered do not influence what the transport does next
-GenView == <<vec, count, curr, state, keepalive, idle, wfail, peerOpen,
+GenView == <<vec, count, curr, state, keepalive, idle, wfail, wstall, reqmsg, chan, peerOpen,
              handles, closed, asked, sent, DoneClass, nsub, nframes>>
 =============================================================================
